@@ -21,9 +21,11 @@ EXPLANATION = (
     "same system and one rotating mixed system) and z3 (QF_NRA) decides that the result equals the documented definition (spec/model.py: "
     "Cartesian/polar/pseudorapidity/proper-time relations, (-,-,-,+) metric, active right-handed rotations, active boosts, ROOT Euler and "
     "quaternion conventions, deltaphi in [-pi,pi), deltaR, rapidity, Et/Mt, beta/gamma, unit, linear transforms) for all real operands where "
-    "the definition is finite"
+    "the definition is finite (timelike operands; spacelike tau-stored operands for the accessors defined there); IEEE guard lane: the dispatch entries of "
+    "66 compute modules are executed on an order abstraction of IEEE-754 arithmetic (a fresh z3 variable per operation, constrained only by facts valid for "
+    "every correctly rounded result) and z3 decides that every argument reaching sqrt/arccos/arcsin is in the domain under every rounding"
 )
-BOUNDS = {"semantics": "exact reals; the float64 'small multiple of rounding error' clause is outside the claim", "second_operands": "cartesian, same system, one rotating mixed system (all mixes: C01)"}
+BOUNDS = {"semantics": "exact reals; the float64 'small multiple of rounding error' clause is outside the claim; ieee-guards: every float64 rounding up to overflow, underflow of squares, zero denominators and arithmetic on infinities (Mt, boost_beta3, boost_p4, gamma, isclose not covered)", "second_operands": "cartesian, same system, one rotating mixed system (all mixes: C01)"}
 
 K = "vector._compute."
 
@@ -54,6 +56,8 @@ UNARY = {
     "Mt2": (4, spec.Mt2, "plain", ("lorentz", "Mt2")),
 }
 MOMENTUM_ONLY = {"Et", "Et2", "Mt", "Mt2"}
+# accessors whose definition is finite for spacelike vectors (stored with a negative tau)
+SPACELIKE_UNARY = ("t", "t2", "tau", "tau2", "beta", "rapidity", "Et", "Et2", "Mt", "Mt2", "x", "y", "z", "rho", "mag", "mag2")
 
 
 def cmp_scalar(kind, got, ref):
@@ -89,18 +93,26 @@ def cmp_vector(R, got, ref_cart, label="result"):
     return goals
 
 
-def f_unary(name, system, tsign=0):
+def f_unary(name, system, tsign=0, spacelike=False, mt2sign=0):
     dmin, sfn, kind, (pkg, mod) = UNARY[name]
 
     def fn(R):
         lib = R.lib
-        v = R.vec(system, "1", momentum=name in MOMENTUM_ONLY)
+        v = R.vec(system, "1", momentum=name in MOMENTUM_ONLY, tau_nonneg=not spacelike)
+        if spacelike:
+            # a negative stored tau denotes the spacelike vector with t^2 = mag^2 - tau^2 >= 0 (documented convention)
+            _, st = lanes.stored(v)
+            R.assume(st[3] < 0)
+            sp = spec.decode(lib, system[:2], st[:3])
+            R.assume(sp[0] * sp[0] + sp[1] * sp[1] + sp[2] * sp[2] - st[3] * st[3] > 0)
         c = spec.cart(lib, v)
         c01.extra_domain(pkg, mod, R, lib, [c], {})
         if name in ("tau", "gamma"):
             pass
         if tsign:
             R.assume(c[3] > 0 if tsign > 0 else c[3] < 0)
+        if mt2sign:
+            R.assume(spec.Mt2(lib, c) >= 0 if mt2sign > 0 else spec.Mt2(lib, c) < 0)
         got = getattr(v, name)
         ref = sfn(lib, c)
         return [("value", cmp_scalar(kind, got, ref))]
@@ -298,8 +310,108 @@ def f_binary(name, s1, s2, operator=False):
     return fn
 
 
+# compute modules whose sqrt / arccos / arcsin arguments are guarded under every float64 rounding (IEEE guard lane, props/guards.py);
+# the modules anchored in C13 (deltaangle, theta, rho, rho2, mag, mag2, t, t2, tau) are checked there
+GUARD_MODULES = None
+
+
+def _guard_modules():
+    import os
+
+    from . import c13
+
+    out = {}
+    allow = os.environ.get("VERIF_GUARD_ALL")
+    for pkg, name, module in common.compute_modules():
+        if name in c13.GUARDED:
+            continue
+        if allow or (pkg, name) in GUARDED_OK:
+            out[name + "@" + pkg] = (pkg, None)
+    return out
+
+
+# every variant of these modules is decided on the pinned tree; Mt (t^2 < z^2), boost_beta3 (|beta| >= 1) and boost_p4 (booster not timelike)
+# take square roots of negative numbers outside the domain of their definition and are not guard obligations
+GUARDED_OK = {
+    ('lorentz', 'Et'),
+    ('lorentz', 'Et2'),
+    ('lorentz', 'Mt2'),
+    ('lorentz', 'add'),
+    ('lorentz', 'beta'),
+    ('lorentz', 'boostX_beta'),
+    ('lorentz', 'boostX_gamma'),
+    ('lorentz', 'boostY_beta'),
+    ('lorentz', 'boostY_gamma'),
+    ('lorentz', 'boostZ_beta'),
+    ('lorentz', 'boostZ_gamma'),
+    ('lorentz', 'deltaRapidityPhi'),
+    ('lorentz', 'deltaRapidityPhi2'),
+    ('lorentz', 'dot'),
+    ('lorentz', 'equal'),
+    ('lorentz', 'is_lightlike'),
+    ('lorentz', 'is_spacelike'),
+    ('lorentz', 'is_timelike'),
+    ('lorentz', 'not_equal'),
+    ('lorentz', 'rapidity'),
+    ('lorentz', 'scale'),
+    ('lorentz', 'subtract'),
+    ('lorentz', 'tau2'),
+    ('lorentz', 'to_beta3'),
+    ('lorentz', 'transform4D'),
+    ('lorentz', 'unit'),
+    ('planar', 'add'),
+    ('planar', 'deltaphi'),
+    ('planar', 'dot'),
+    ('planar', 'equal'),
+    ('planar', 'is_antiparallel'),
+    ('planar', 'is_parallel'),
+    ('planar', 'is_perpendicular'),
+    ('planar', 'not_equal'),
+    ('planar', 'phi'),
+    ('planar', 'rotateZ'),
+    ('planar', 'scale'),
+    ('planar', 'subtract'),
+    ('planar', 'transform2D'),
+    ('planar', 'unit'),
+    ('planar', 'x'),
+    ('planar', 'y'),
+    ('spatial', 'add'),
+    ('spatial', 'costheta'),
+    ('spatial', 'cottheta'),
+    ('spatial', 'cross'),
+    ('spatial', 'deltaR'),
+    ('spatial', 'deltaR2'),
+    ('spatial', 'deltaeta'),
+    ('spatial', 'dot'),
+    ('spatial', 'equal'),
+    ('spatial', 'eta'),
+    ('spatial', 'is_antiparallel'),
+    ('spatial', 'is_parallel'),
+    ('spatial', 'is_perpendicular'),
+    ('spatial', 'not_equal'),
+    ('spatial', 'rotateX'),
+    ('spatial', 'rotateY'),
+    ('spatial', 'rotate_axis'),
+    ('spatial', 'rotate_euler'),
+    ('spatial', 'rotate_quaternion'),
+    ('spatial', 'scale'),
+    ('spatial', 'subtract'),
+    ('spatial', 'transform3D'),
+    ('spatial', 'unit'),
+    ('spatial', 'z'),
+}
+
+
 def families(tier="quick"):
     fams = []
+    from . import guards
+
+    mods = {}
+    for key, (pkg, want) in _guard_modules().items():
+        mods.setdefault(pkg, {})[key.split("@")[0]] = (pkg, want)
+    for pkg, m in mods.items():
+        gf, _sk = guards.families(PID, m, tier)
+        fams += gf
 
     def add(key, fn, functions, defd=True):
         _f = Family(f"{PID}/{key}", fn, defd=defd, functions=functions)
@@ -318,6 +430,12 @@ def families(tier="quick"):
                     add(f"{name}/{n}@t<0", f_unary(name, s, -1), [K + f"{pkg}.{mod}"])
                 else:
                     add(f"{name}/{n}", f_unary(name, s), [K + f"{pkg}.{mod}", "vector._methods"])
+                if d == 4 and s[-1] == "tau" and name == "Mt2":
+                    # t^2 - z^2 < 0 is a recorded finding (known_findings.json); the rest of the spacelike domain is a full obligation
+                    add(f"{name}/{n}@spacelike", f_unary(name, s, spacelike=True, mt2sign=1), [K + f"{pkg}.{mod}", "vector._methods"])
+                    add(f"{name}/{n}@spacelike,Mt2<0", f_unary(name, s, spacelike=True, mt2sign=-1), [K + f"{pkg}.{mod}", "vector._methods"])
+                elif d == 4 and s[-1] == "tau" and name in SPACELIKE_UNARY:
+                    add(f"{name}/{n}@spacelike", f_unary(name, s, spacelike=True), [K + f"{pkg}.{mod}", "vector._methods"])
             add(f"unit/{n}", f_unit(s), [K + f"{pk[d - 2]}.unit"])
             for via in ("scale", "mul", "rmul", "div", "neg"):
                 add(f"{via}/{n}", f_scale(s, via), [K + f"{pk[d - 2]}.scale", "vector.backends.object.VectorObject.__array_ufunc__"])
